@@ -148,6 +148,37 @@ def view_facts(b, block):
             x = x[1]
         if isinstance(x, tuple) and x and x[0] == "call" and x[1] == SLICE_GET and len(x[2]) == 2 and is_map_slice(x[2][0]):
             fs.append(("cmp", "Lt", x[2][1], ("call", MAPLEN, (("param", 0, b.local_name(1)),), (), MAPLEN)))
+    # the same bound stated in bytes: `n <= 8 * (map.len() - offset - c)` is `offset + c + bytes_to_words(n) <= map.len()`
+    from guards import linear
+    for f in list(fs):
+        if f[0] != "cmp":
+            continue
+        op, a, c = f[1], f[2], f[3]
+        if op in ("Ge", "Gt"):
+            op, a, c = {"Ge": "Le", "Gt": "Lt"}[op], c, a
+        if op not in ("Le", "Lt"):
+            continue
+        c0 = strip_casts(c)
+        words = None
+        if c0[0] == "call" and c0[1] == "bits::words_to_bytes" and len(c0[2]) == 1:
+            words = c0[2][0]
+        elif c0[0] == "bin" and c0[1] == "Mul":
+            for x, y in ((c0[2], c0[3]), (c0[3], c0[2])):
+                if strip_casts(y) [:2] == ("const", 8):
+                    words = x
+        elif c0[0] == "bin" and c0[1] == "Shl" and strip_casts(c0[3])[:2] == ("const", 3):
+            words = c0[2]
+        if words is None:
+            continue
+        lin = linear(words)
+        mlen = [k for k in lin if isinstance(k, tuple) and k and k[0] == "call" and is_map_len(k)]
+        if len(mlen) != 1 or lin.get(mlen[0]) != 1 or lin.get(("param", 1), 0) != -1 or any(k not in (mlen[0], ("param", 1), ()) for k in lin):
+            continue
+        cst = -lin.get((), 0)
+        if cst < 0:
+            continue
+        lhs = ("bin", "Add", ("bin", "Add", ("param", 1, b.local_name(2)), ("const", cst)), ("call", "bits::bytes_to_words", (strip_casts(a),), (), "bits::bytes_to_words"))
+        fs.append(("cmp", "Le", lhs, mlen[0]))
     return fs
 
 
@@ -213,7 +244,7 @@ def check_views(ctx, F, tag, prefix):
     # the element slice of a map has exactly map.len() elements (what makes a bound against map.len() a bound on the slice)
     if F.has_body(ASREF) and F.has_body(MAPLEN):
         ab, lb = F.body(ASREF), F.body(MAPLEN)
-        frp = [t for _, t in ab.calls() if callee_name(t).startswith("std::slice::from_raw_parts")]
+        frp = [t for _, t in ab.calls() if callee_name(t).startswith(("std::slice::from_raw_parts", "std::ptr::slice_from_raw_parts"))]
         from pat import self_path
         oka = len(frp) == 1 and self_path(ab.term_of_operand(frp[0]["args"][1])) == ["len"] and self_path(lb.term_of_local(0)) == ["len"]
         ctx.ob(prefix + ".map-slice-length", ASREF + tag, loc(ab.raw["span"]), oka, "term-shape",
@@ -250,7 +281,7 @@ def check_views(ctx, F, tag, prefix):
                 ctx.ob(prefix + ".guard-before-subslice", key, loc(s["sp"]), ok, "guard-dominance",
                        "map sub-slice [%s..] %s" % (tstr(s["idx"]), ("dominated by " + tstr(("bin", f[1], f[2], f[3]))) if ok else "has no dominating bound against map.len()"))
             elif s["kind"] == "range_other":
-                ctx.ob(prefix + ".guard-before-subslice", "%s|range%s" % (name, tag), loc(s["sp"]), False, "guard-dominance", "unrecognised range form %s" % tstr(s["idx"]))
+                ctx.ob(prefix + ".guard-before-subslice", "%s|range%s" % (name, tag), loc(s["sp"]), None, "guard-dominance", "unrecognised range form %s" % tstr(s["idx"]))
             else:
                 # from_raw_parts(p, n): a dominating fact  offset + k + f(n) <= map.len()  whose sum mentions n
                 n = strip_casts(s["count"])
